@@ -375,6 +375,7 @@ struct Type {
   bool is_variadic;
   Type *next;
   struct Scope *proto_scope; // scope of the parameter list
+  Obj *param_var;            // the object of a named parameter
 };
 
 // Struct member
